@@ -15,7 +15,17 @@ fiber_barrier_t bar;
 uint64_t arrived[ROUNDS];   /* ghost: fibers that have entered their k-th wait */
 uint64_t serials[ROUNDS];   /* ghost: fibers told SERIAL in round k */
 
+#ifdef PHANTOM
+/* count 3 with two scenario fibers: the third participant B is a fiber on another kernel thread that HAS arrived at round 0
+   (its increment of the arrival counter is done) but is stalled before it enqueues itself - for the whole scenario.  This is the
+   window the property names: "a fiber re-entering round k+1 while a round-k participant has arrived but not yet enqueued".
+   Fiber 1 re-enters the barrier at once (2 waits), fiber 2 waits once. */
+#define BCOUNT 3
+void vm_init(void) { k_init(); fiber_barrier_init(&bar, BCOUNT); bar.counter = 1; arrived[0] = 1; }
+#else
+#define BCOUNT NF
 void vm_init(void) { k_init(); fiber_barrier_init(&bar, NF); }
+#endif
 #ifdef COUNTER_START
 /* the barrier has been in use for a long time: the arrival counter starts at a symbolic round boundary around 2^32 */
 void vm_setup(void) {
@@ -29,13 +39,16 @@ static inline void body_n(int rounds) {
   for (int k = 0; k < rounds; k++) {
     __atomic_fetch_add(&arrived[k], 1, __ATOMIC_SEQ_CST);
     int r = fiber_barrier_wait(&bar);
-    vm_assert(arrived[k] == NF, "C12 barrier: a fiber passed round k before all fibers had arrived at round k");
+    vm_assert(arrived[k] == BCOUNT, "C12 barrier: a fiber passed round k before all fibers had arrived at round k");
     if (r == FIBER_BARRIER_SERIAL_FIBER) __atomic_fetch_add(&serials[k], 1, __ATOMIC_SEQ_CST);
     else vm_assert(r == 0, "C12 barrier: wait returns 0 or SERIAL");
     vm_progress();
   }
 }
-#ifdef ASYM
+#ifdef PHANTOM
+void vm_thread_1(void) { body_n(2); }
+void vm_thread_2(void) { body_n(1); }
+#elif defined(ASYM)
 /* count 3: fibers 1 and 3 take part in round 0 only, fiber 2 re-enters the barrier immediately (round 1) where it must block:
    the cheapest program in which "a fiber re-entering round k+1 while a round-k participant has arrived but not yet enqueued" exists */
 void vm_thread_1(void) { body_n(1); }
@@ -52,7 +65,10 @@ void vm_thread_3(void) { body_n(ROUNDS); }
 #endif
 void vm_final(void) {
   uint64_t blocked = k_blocked_forever();
-#ifdef ASYM
+#ifdef PHANTOM
+  (void)blocked;   /* B never enqueues within the scenario: fibers may legitimately still be blocked; the round-order assertion in body_n decides */
+  vm_assert(serials[0] <= 1 && serials[1] <= 1, "C12 barrier: more than one serial fiber in a round");
+#elif defined(ASYM)
   vm_assert(blocked == 1 && vm_is_parked(2), "C12 barrier: in the asymmetric program exactly fiber 2 stays blocked in round 1 (everybody returns from round 0)");
   vm_assert(serials[0] == 1 && serials[1] == 0, "C12 barrier: not exactly one serial fiber in round 0");
 #else
